@@ -514,7 +514,18 @@ pub(crate) fn canon_env(env: &Env) -> String {
                     continue;
                 }
             }
-            entries.push((k.text.clone(), v.display(env)));
+            // Two definitions of the same function on the same line
+            // display the same; tell them apart by their syntax.
+            let detail = match v.as_ref() {
+                crate::values::Value_::Fun { fun_info, .. } => {
+                    use std::hash::{Hash, Hasher};
+                    let mut h = std::collections::hash_map::DefaultHasher::new();
+                    norm_debug(fun_info).hash(&mut h);
+                    format!("#{:x}", h.finish())
+                }
+                _ => String::new(),
+            };
+            entries.push((k.text.clone(), format!("{}{detail}", v.display(env))));
         }
         entries.sort();
         let mut types: Vec<String> = ns.types.keys().map(|t| t.text.clone()).collect();
